@@ -260,7 +260,9 @@ def in_place_loading(ctx, rep, rule: str) -> None:
         return MISSING
 
     loops = [n for n in A.walk_no_nested(up.node) if isinstance(n, ast.For) and _norm(n.iter).endswith(".items()")]
-    chain = [st for lp in loops[:1] for st in lp.body if isinstance(st, ast.If) and vvar in A.names_in(st.test) and kvar not in A.names_in(st.test)]
+    cands = [st for lp in loops[:1] for st in ast.walk(lp) if isinstance(st, ast.If) and vvar in A.names_in(st.test) and kvar not in A.names_in(st.test)]
+    elifs = {id(c.orelse[0]) for c in cands if len(c.orelse) == 1 and isinstance(c.orelse[0], ast.If)}
+    chain = [c for c in cands if id(c) not in elifs and ("isinstance" in _norm(c.test) or "type(" in _norm(c.test))]  # the head(s) of the kind dispatch, wherever it is nested
     if not chain:
         raise AnalysisError(f"{rule}: kind dispatch of update_param_state_dict_object not found (no if-chain on the state value in the items loop)")
     bad = []
